@@ -1,2 +1,40 @@
+"""Calibration of the independent implementation against reference-written files:
+every valid file in /repo/testdata must decode without a lint finding (corrupt_crc.e57 must
+report exactly its broken page), and every file the encoder emits must decode to its scene."""
+import glob, os, sys
+
+EXPECTED_BAD = {"corrupt_crc.e57": "R2"}
+
+
 def run(quiet=False):
-    return True
+    from . import decode
+    ok = True
+    n = 0
+    for f in sorted(glob.glob("/repo/testdata/*.e57")):
+        name = os.path.basename(f)
+        img = open(f, "rb").read()
+        if len(img) > 400 * 1024:
+            continue
+        scene, problems = decode.decode(img)
+        n += 1
+        want = EXPECTED_BAD.get(name)
+        rules = sorted(set(r for r, _ in problems))
+        if want:
+            if rules != [want]:
+                ok = False
+                print("selftest: %s expected only %s, got %s" % (name, want, problems[:3]), file=sys.stderr)
+        elif problems:
+            ok = False
+            print("selftest: %s (reference file) has lint findings: %s" % (name, problems[:3]), file=sys.stderr)
+    try:
+        from . import encode
+        ok = encode.selftest(quiet) and ok
+    except ImportError:
+        pass
+    if not quiet:
+        print("e57ref selftest: %d reference files, ok=%s" % (n, ok))
+    return ok and n > 5
+
+
+if __name__ == "__main__":
+    sys.exit(0 if run() else 1)
